@@ -1,4 +1,5 @@
 """Script-level oracles from the reference interpreter (script.h / interpreter.cpp semantics)."""
+from pyvc.api import opaque, implies
 
 
 def push_data(data):
@@ -31,6 +32,13 @@ def script_num_encode(n):
     return out
 
 
+def _num_facts(b, r):
+    return [implies(len(b) == 0, r == 0),
+            implies(len(b) <= 4, -2 ** 31 < r and r < 2 ** 31),
+            implies(len(b) <= 8, -2 ** 63 < r and r < 2 ** 63)]
+
+
+@opaque(result='int', facts=_num_facts, max_len=9)
 def script_num_decode(b):
     """CScriptNum set_vch: little-endian magnitude, top bit of last byte is the sign (no minimality check)."""
     if len(b) == 0:
@@ -60,6 +68,7 @@ def is_minimal_num(b):
     return True
 
 
+@opaque(result='bool', facts=lambda b, r: [implies(len(b) == 0, not r)], max_len=3)
 def cast_to_bool(b):
     """CastToBool: any non-zero byte, except that a final 0x80 (negative zero) does not count"""
     i = 0
@@ -70,3 +79,373 @@ def cast_to_bool(b):
             return True
         i += 1
     return False
+
+
+# ---------------------------------------------------------------------------------------------------
+# One function per opcode: consensus effect on the main stack (list, bottom -> top).
+# Returns the new stack, or None for "script fails".  Written from interpreter.cpp (EvalScript);
+# operands of numeric opcodes are limited to 4 bytes (nMaxNumSize), results may be 5 bytes.
+
+import hashlib
+
+T = b'\x01'
+F = b''
+MAX_NUM = 4
+
+
+def _b(cond):
+    return T if cond else F
+
+
+def op_nop(st):
+    return st
+
+
+def op_verify(st):
+    if len(st) < 1:
+        return None
+    if not cast_to_bool(st[-1]):
+        return None
+    return st[:-1]
+
+
+def op_return(st):
+    return None
+
+
+def op_2drop(st):
+    if len(st) < 2:
+        return None
+    return st[:-2]
+
+
+def op_2dup(st):
+    if len(st) < 2:
+        return None
+    return st + [st[-2], st[-1]]
+
+
+def op_3dup(st):
+    if len(st) < 3:
+        return None
+    return st + [st[-3], st[-2], st[-1]]
+
+
+def op_2over(st):
+    if len(st) < 4:
+        return None
+    return st + [st[-4], st[-3]]
+
+
+def op_2rot(st):
+    if len(st) < 6:
+        return None
+    return st[:-6] + [st[-4], st[-3], st[-2], st[-1], st[-6], st[-5]]
+
+
+def op_2swap(st):
+    if len(st) < 4:
+        return None
+    return st[:-4] + [st[-2], st[-1], st[-4], st[-3]]
+
+
+def op_ifdup(st):
+    if len(st) < 1:
+        return None
+    if cast_to_bool(st[-1]):
+        return st + [st[-1]]
+    return st
+
+
+def op_depth(st):
+    return st + [script_num_encode(len(st))]
+
+
+def op_drop(st):
+    if len(st) < 1:
+        return None
+    return st[:-1]
+
+
+def op_dup(st):
+    if len(st) < 1:
+        return None
+    return st + [st[-1]]
+
+
+def op_nip(st):
+    if len(st) < 2:
+        return None
+    return st[:-2] + [st[-1]]
+
+
+def op_over(st):
+    if len(st) < 2:
+        return None
+    return st + [st[-2]]
+
+
+def op_pick(st):
+    if len(st) < 2:
+        return None
+    if len(st[-1]) > MAX_NUM:
+        return None
+    n = script_num_decode(st[-1])
+    if n < 0 or n >= len(st) - 1:
+        return None
+    return st[:-1] + [st[-2 - n]]
+
+
+def op_roll(st):
+    if len(st) < 2:
+        return None
+    if len(st[-1]) > MAX_NUM:
+        return None
+    n = script_num_decode(st[-1])
+    if n < 0 or n >= len(st) - 1:
+        return None
+    rest = st[:-1]
+    x = rest[-1 - n]
+    k = len(rest) - 1 - n
+    return rest[:k] + rest[k + 1:] + [x]
+
+
+def op_rot(st):
+    if len(st) < 3:
+        return None
+    return st[:-3] + [st[-2], st[-1], st[-3]]
+
+
+def op_swap(st):
+    if len(st) < 2:
+        return None
+    return st[:-2] + [st[-1], st[-2]]
+
+
+def op_tuck(st):
+    if len(st) < 2:
+        return None
+    return st[:-2] + [st[-1], st[-2], st[-1]]
+
+
+def op_size(st):
+    if len(st) < 1:
+        return None
+    return st + [script_num_encode(len(st[-1]))]
+
+
+def op_equal(st):
+    if len(st) < 2:
+        return None
+    return st[:-2] + [_b(st[-2] == st[-1])]
+
+
+def op_equalverify(st):
+    r = op_equal(st)
+    if r is None:
+        return None
+    return op_verify(r)
+
+
+def _unary(st, f):
+    if len(st) < 1:
+        return None
+    if len(st[-1]) > MAX_NUM:
+        return None
+    return st[:-1] + [f(script_num_decode(st[-1]))]
+
+
+def _binary(st, f):
+    """f(a, b) with a the first-pushed (deeper) operand and b the top of the stack"""
+    if len(st) < 2:
+        return None
+    if len(st[-1]) > MAX_NUM or len(st[-2]) > MAX_NUM:
+        return None
+    return st[:-2] + [f(script_num_decode(st[-2]), script_num_decode(st[-1]))]
+
+
+def op_1add(st):
+    return _unary(st, lambda a: script_num_encode(a + 1))
+
+
+def op_1sub(st):
+    return _unary(st, lambda a: script_num_encode(a - 1))
+
+
+def op_negate(st):
+    return _unary(st, lambda a: script_num_encode(-a))
+
+
+def op_abs(st):
+    return _unary(st, lambda a: script_num_encode(-a if a < 0 else a))
+
+
+def op_not(st):
+    return _unary(st, lambda a: _b(a == 0))
+
+
+def op_0notequal(st):
+    return _unary(st, lambda a: _b(a != 0))
+
+
+def op_add(st):
+    return _binary(st, lambda a, b: script_num_encode(a + b))
+
+
+def op_sub(st):
+    return _binary(st, lambda a, b: script_num_encode(a - b))
+
+
+def op_booland(st):
+    return _binary(st, lambda a, b: _b(a != 0 and b != 0))
+
+
+def op_boolor(st):
+    return _binary(st, lambda a, b: _b(a != 0 or b != 0))
+
+
+def op_numequal(st):
+    return _binary(st, lambda a, b: _b(a == b))
+
+
+def op_numequalverify(st):
+    r = op_numequal(st)
+    if r is None:
+        return None
+    return op_verify(r)
+
+
+def op_numnotequal(st):
+    return _binary(st, lambda a, b: _b(a != b))
+
+
+def op_lessthan(st):
+    return _binary(st, lambda a, b: _b(a < b))
+
+
+def op_greaterthan(st):
+    return _binary(st, lambda a, b: _b(a > b))
+
+
+def op_lessthanorequal(st):
+    return _binary(st, lambda a, b: _b(a <= b))
+
+
+def op_greaterthanorequal(st):
+    return _binary(st, lambda a, b: _b(a >= b))
+
+
+def op_min(st):
+    return _binary(st, lambda a, b: script_num_encode(a if a < b else b))
+
+
+def op_max(st):
+    return _binary(st, lambda a, b: script_num_encode(a if a > b else b))
+
+
+def op_within(st):
+    """x min max OP_WITHIN: true iff min <= x < max"""
+    if len(st) < 3:
+        return None
+    if len(st[-1]) > MAX_NUM or len(st[-2]) > MAX_NUM or len(st[-3]) > MAX_NUM:
+        return None
+    x = script_num_decode(st[-3])
+    lo = script_num_decode(st[-2])
+    hi = script_num_decode(st[-1])
+    return st[:-3] + [_b(lo <= x and x < hi)]
+
+
+def _ripemd160(x):
+    from Crypto.Hash import RIPEMD160
+    return RIPEMD160.new(x).digest()
+
+
+def _hash1(st, h):
+    if len(st) < 1:
+        return None
+    return st[:-1] + [h(st[-1])]
+
+
+def op_ripemd160(st):
+    return _hash1(st, _ripemd160)
+
+
+def op_sha1(st):
+    return _hash1(st, lambda x: hashlib.sha1(x).digest())
+
+
+def op_sha256(st):
+    return _hash1(st, lambda x: hashlib.sha256(x).digest())
+
+
+def op_hash160(st):
+    return _hash1(st, lambda x: _ripemd160(hashlib.sha256(x).digest()))
+
+
+def op_hash256(st):
+    return _hash1(st, lambda x: hashlib.sha256(hashlib.sha256(x).digest()).digest())
+
+
+# ---------------------------------------------------------------------------------------------------
+# Reference interpreter for the opcode subset above (EvalScript with a condition stack), used natively by the
+# bounded evaluate-level stand-in.  `ops` maps opcode number -> stack function; unknown opcodes fail.
+
+OP_IF, OP_NOTIF, OP_ELSE, OP_ENDIF = 99, 100, 103, 104
+
+
+def eval_script(commands, ops, truth=cast_to_bool, else_once=False):
+    """True iff the script succeeds.  commands: ints (opcodes) and bytes (data pushes)."""
+    st = []
+    vf = []                      # condition stack
+    seen_else = []               # only used for the pinned "a second ELSE does not toggle back" behaviour
+    for c in commands:
+        executing = all(vf)
+        if isinstance(c, bytes):
+            if executing:
+                st = st + [c]
+            continue
+        if c in (OP_IF, OP_NOTIF):
+            val = False
+            if executing:
+                if len(st) < 1:
+                    return False
+                val = truth(st[-1])
+                if c == OP_NOTIF:
+                    val = not val
+                st = st[:-1]
+            vf.append(val)
+            seen_else.append(False)
+            continue
+        if c == OP_ELSE:
+            if not vf:
+                return False
+            if not (else_once and seen_else[-1]):
+                vf[-1] = not vf[-1]
+            seen_else[-1] = True
+            continue
+        if c == OP_ENDIF:
+            if not vf:
+                return False
+            vf.pop()
+            seen_else.pop()
+            continue
+        if not executing:
+            continue
+        if c == 0:
+            st = st + [b'']
+        elif c == 79:
+            st = st + [script_num_encode(-1)]
+        elif 81 <= c <= 96:
+            st = st + [script_num_encode(c - 80)]
+        else:
+            f = ops.get(c)
+            if f is None:
+                return False
+            st = f(st)
+            if st is None:
+                return False
+    if vf:
+        return False
+    if len(st) == 0:
+        return False
+    return truth(st[-1])
